@@ -1633,7 +1633,7 @@ func c03Run(c *lib.Ctx, cases []c3Case, nSweep int) {
 			kText++
 			if a, detail := c3KCompare(cs, res, replies[reqIdx[i]], modelRead[[2]int{i, 0}], modelRead[[2]int{i, 1}]); a != "" {
 				detail["expected_from"] = "model:print (SlipVerif.Model.Printer)"
-				detail["relies_on"] = []string{"SlipVerif.Theorems.C03.print_read_roundtrip_partial"}
+				detail["relies_on"] = []string{"SlipVerif.Theorems.C03.print_read_roundtrip"}
 				report(a, detail)
 			} else {
 				kRead++
@@ -1658,7 +1658,7 @@ func c03Run(c *lib.Ctx, cases []c3Case, nSweep int) {
 	c.Ev.Coverage["lisp_level_roundtrips"] = lispChecked
 	c.Ev.Coverage["model_pretty_layout_identical"] = prettySame
 	c.Ev.Coverage["model_pretty_layout_different"] = prettyDiff
-	c.Ev.Coverage["rule"] = "case = (object, printer configuration); sweeps = boundary integers/ratios x base 2..36 x radix, one-character strings/characters/symbols over all ASCII and sampled Unicode, number-like / quoted symbol names x case, container shapes x pretty x margins, arrays/vectors x base x radix x array, floats of each format x readably (exhaustive, seed independent) + random nested objects x random configuration; every case is printed flat and pretty and read back (W), float-free cases are also compared with the model text and the model reader (K); non-trivial = has a container level or a boundary leaf (|n| >= 2^31, ratio, float, char outside [a-z0-9], symbol needing quoting, string with quote/backslash/non-printing); distinct by (configuration, object term)"
+	c.Ev.Coverage["rule"] = "case = (object, printer configuration); sweeps = boundary integers/ratios x base 2..36 x radix, one-character strings/characters/symbols over all ASCII and sampled Unicode, number-like / quoted symbol names x case, container shapes x pretty x margins, arrays/vectors x base x radix x array, floats of each format x readably, Tail holding a list, package-prefixed symbols, rank-0 / empty-dimension arrays, non-finite floats, nested vector/list/array shapes and atoms longer than the margin (exhaustive, seed independent) + random nested objects x random configuration; every case is printed flat and pretty and read back (W); every case in the model universe (finite floats by their shortest decimal included) is also compared with the model text and the model reader (K); float family: boundary and random bit patterns of single and double floats and listed long-float texts: codec hypothesis (shortest e-format text canonical, ParseFloat of it gives the same bits) and slip round trip under each *read-default-float-format*; non-trivial = has a container level or a boundary leaf (|n| >= 2^31, ratio, float, char outside [a-z0-9], symbol needing quoting, string with quote/backslash/non-printing); distinct by (configuration, object term)"
 }
 
 type c3Pending struct {
